@@ -17,8 +17,11 @@ import (
 )
 
 type vmEvent struct {
-	Kind   string // rd, const, stk:r, stk:w, slot:r, slot:w, call, mapw, append, store, jump, blk:r, blk:w
+	Kind   string // rd, const, stk:r, stk:w, slot:r, slot:w, call, if, mapw, append, store, jump, blk:r, blk:w
 	Detail string
+	Args   []Value  // call arguments (abstract)
+	Paths  []string // field paths of the call arguments, "" when not a field chain
+	Callee string
 	Pos    token.Pos
 	Val    Value // value written / argument, when relevant
 	Idx    *Lin  // stack index relative to arm entry tos (stk:*), or nil
@@ -536,6 +539,26 @@ func vmHooks(c *Ctx, m *vmModel) Hooks {
 		}
 		return false
 	}
+	h.Decision = func(in *Interp, st *State, cond ast.Expr, v Value, branch bool) {
+		d := v.String()
+		if v.K != vTag {
+			// comparisons and other conditions: describe the operands abstractly
+			if be, ok := stripParens(cond).(*ast.BinaryExpr); ok {
+				var parts []string
+				for _, e := range []ast.Expr{be.X, be.Y} {
+					s := "?"
+					for _, vs := range in.eval(st.clone(), e) {
+						s = vs.v.String()
+						break
+					}
+					parts = append(parts, s)
+				}
+				d = parts[0] + " " + be.Op.String() + " " + parts[1]
+			}
+		}
+		p := pay(st)
+		p.events = append(p.events, vmEvent{Kind: "if", Detail: fmt.Sprintf("%s=%v", d, branch), Pos: cond.Pos()})
+	}
 	h.Assume = func(in *Interp, st *State, cond ast.Expr, branch bool) bool {
 		be, ok := stripParens(cond).(*ast.BinaryExpr)
 		if !ok {
@@ -653,12 +676,19 @@ func vmHooks(c *Ctx, m *vmModel) Hooks {
 				}
 				return nil, false
 			}
-			// calls into named functions are recorded; results unknown
-			var as []string
+			// calls into named functions are recorded; the result is an opaque value named after the call
+			var as, paths []string
 			for _, a := range args {
 				as = append(as, a.String())
 			}
-			p.events = append(p.events, vmEvent{Kind: "call", Detail: name + "(" + strings.Join(as, ", ") + ")", Pos: call.Pos()})
+			for _, a := range call.Args {
+				paths = append(paths, c.fieldPath(a))
+			}
+			detail := name + "(" + strings.Join(as, ", ") + ")"
+			p.events = append(p.events, vmEvent{Kind: "call", Detail: detail, Pos: call.Pos(), Args: args, Paths: paths, Callee: name})
+			res := tagV("callres", detail)
+			res.T = c.typeOf(call)
+			return one(st, res), true
 		}
 		return nil, false
 	}
